@@ -6,6 +6,7 @@ package ref
 import (
 	"crypto/elliptic"
 	"math/big"
+	"sync"
 
 	ethcrypto "github.com/ethereum/go-ethereum/crypto"
 	"github.com/ethereum/go-ethereum/crypto/secp256k1"
@@ -165,4 +166,59 @@ func SignWithNonce(k Key, msg []byte, nonce []byte) (sig [64]byte, ok bool) {
 	copy(sig[:32], pad32(r))
 	copy(sig[32:], pad32(s))
 	return sig, true
+}
+
+// zero-tail signing: a table of nonces with their r and k^-1 is built once, so
+// that many candidate signatures per message cost only modular multiplications.
+var (
+	ztOnce sync.Once
+	ztR    []*big.Int
+	ztKinv []*big.Int
+)
+
+// SignZeroTail returns a valid low-s signature whose last byte is zero (found
+// by trying the nonces of the table; about one in 256 fits). ok is false if no
+// nonce of the table fits. The choice is a pure function of key and message.
+func SignZeroTail(k Key, msg []byte) (sig [64]byte, ok bool) {
+	c := curve()
+	n := c.Params().N
+	ztOnce.Do(func() {
+		for i := 0; i < 1536; i++ {
+			kk := new(big.Int).SetBytes(Keccak([]byte{'z', 't', byte(i), byte(i >> 8)}))
+			kk.Mod(kk, n)
+			if kk.Sign() == 0 {
+				continue
+			}
+			rx, _ := c.ScalarBaseMult(pad32(kk))
+			r := new(big.Int).Mod(rx, n)
+			if r.Sign() == 0 {
+				continue
+			}
+			ztR = append(ztR, r)
+			ztKinv = append(ztKinv, new(big.Int).ModInverse(kk, n))
+		}
+	})
+	d := new(big.Int).SetBytes(k.Priv[:])
+	z := new(big.Int).SetBytes(Keccak(msg))
+	half := new(big.Int).Rsh(n, 1)
+	s := new(big.Int)
+	for i := range ztR {
+		s.Mul(ztR[i], d)
+		s.Add(s, z)
+		s.Mul(s, ztKinv[i])
+		s.Mod(s, n)
+		if s.Sign() == 0 {
+			continue
+		}
+		if s.Cmp(half) > 0 {
+			s.Sub(n, s)
+		}
+		if s.Bits()[0]&0xff != 0 {
+			continue
+		}
+		copy(sig[:32], pad32(ztR[i]))
+		copy(sig[32:], pad32(s))
+		return sig, true
+	}
+	return sig, false
 }
